@@ -95,6 +95,7 @@ func init() {
 			// callbacks are user code as well: one that panics must not make
 			// a constructor that completed run again
 			k.PCallback, k.PCBPanic = 15, 40
+			k.PCBInvoke = 30
 			k.Types = []string{"T0", "T1", "T2", "T3", "S0"}
 			k.PSide = 8 // bodies that call String / Visualize / Scope / Provide / Decorate on the container
 			return k
@@ -246,6 +247,7 @@ func init() {
 			k.Groups = []string{"g", "h"}
 			k.PGroupRes, k.PGroupParam, k.PSoft, k.PFlatten = 65, 65, 8, 40
 			k.PAs = 30
+			k.PCallback, k.PCBInvoke = 10, 50 // feeders whose callback asks for the whole group
 			k.PDecoGroup = 0
 			k.WDecorate = 1
 			k.PExport = 25
@@ -312,10 +314,11 @@ func init() {
 			k.Names = []string{"a"}
 			k.MaxScopes = 5
 			k.MaxOps = 26
-			k.WCycleCloser = 1  // after a cycle-rejected registration the state must be intact
-			k.PSide = 8         // bodies that call String / Visualize / Scope / Provide / Decorate on the container
-			k.PNamedSlice = 25  // decorators and consumers that declare one group with different (named) slice types
-			k.WDecoSandwich = 2 // a decorator registered between an outer decorator and a consumer that has resolved the key before
+			k.WCycleCloser = 1                // after a cycle-rejected registration the state must be intact
+			k.PSide = 8                       // bodies that call String / Visualize / Scope / Provide / Decorate on the container
+			k.PNamedSlice = 25                // decorators and consumers that declare one group with different (named) slice types
+			k.PCallback, k.PCBInvoke = 10, 50 // a decorator's callback invokes a consumer of the decorated key
+			k.WDecoSandwich = 2               // a decorator registered between an outer decorator and a consumer that has resolved the key before
 			return k
 		},
 		clauses: []string{CVerdictDecorate, CExecTwice, CProvSingle, CGroupMultiset, CFromNowhere, CBadExec, CZeroRequired},
